@@ -2875,7 +2875,11 @@ class Evaluator:
                         else:
                             fs.append(s.truth(s.ev(x_, env2, mod, depth)))
                     body = [ast.AugAssign(target=ast.Name(id=nm, ctx=ast.Store()), op=ast.Add(), value=ss_[1])]
-                    s.rebind(nm, Opq('Σ', Comp(s.ev(body[0].value, env2, mod, depth), [(_fuse_iter(it), [f for f in fs if f is not True])], 'gen')), env)
+                    elt_ = s.ev(body[0].value, env2, mod, depth); base_ = _fuse_iter(it); fl_ = [f for f in fs if f is not True]
+                    if isinstance(base_, Opq) and len(base_.k) == 2 and base_.k[0] == 'enumerate':
+                        ikey_ = repr(('idx', 0, tkey(base_.k[1])))          # the position is not used by the summand: the sum runs over the items themselves
+                        if ikey_ not in repr(tkey(elt_)) and not any(ikey_ in repr(tkey(f_)) for f_ in fl_): base_ = _fuse_iter(base_.k[1])
+                    s.rebind(nm, Opq('Σ', Comp(elt_, [(base_, fl_)], 'gen')), env)
                     return
             env2 = {'__parent__': env}
             for nm in assigned:
